@@ -139,6 +139,18 @@ func init() {
 			fr.i.m.MapNondet = a[0].(bool)
 			return nil
 		},
+		vpkg + "ExactBigText": func(fr *frame, a []value) value {
+			fr.i.m.BigText = a[0].(bool)
+			return nil
+		},
+		vpkg + "RaceDetect": func(fr *frame, a []value) value {
+			fr.i.raceID = a[0].(string)
+			if fr.i.raceID != "" {
+				fr.i.m.Stubs["data-race detection: vector clocks over go/mutex/channel/WaitGroup happens-before edges"]++
+			}
+			return nil
+		},
+		vpkg + "Yield": func(fr *frame, a []value) value { fr.i.yield(); return nil },
 		vpkg + "Symbolic": func(fr *frame, a []value) value { return true },
 		vpkg + "Logf":     func(fr *frame, a []value) value { return nil },
 	} {
